@@ -91,7 +91,12 @@ def parse_regex(src):
             return CharSet([(48, 57)], fuzzy=True)
         if c in ESC:
             return CharSet.of(ESC[c])
-        if c in "wsWSDbBpPxuU":
+        if c in "sS":
+            # regex-syntax's Unicode White_Space property (logos compiles &str patterns in Unicode mode)
+            ws = CharSet([(9, 13), (32, 32), (0x85, 0x85), (0xA0, 0xA0), (0x1680, 0x1680), (0x2000, 0x200A),
+                          (0x2028, 0x2029), (0x202F, 0x202F), (0x205F, 0x205F), (0x3000, 0x3000)])
+            return ws if c == "s" else ws.negate()
+        if c in "wWDbBpPxuU":
             raise Unsupported("escape \\%s" % c)
         return CharSet.of(c)
 
